@@ -47,6 +47,8 @@ type pxObs struct {
 	Err     bool
 	Updated bool
 	Panic   string `json:",omitempty"`
+	// CLen: the Content-Length the handler declared to Prometheus (-1: none)
+	CLen int64
 }
 
 var pxCTypes = []string{"", "text/plain; version=0.0.4", "application/openmetrics-text; version=0.0.1", "text/plain"}
@@ -153,7 +155,12 @@ func (t *pxRT) RoundTrip(req *http.Request) (*http.Response, error) {
 		data = zb.Bytes()
 		h.Set("Content-Encoding", "gzip")
 	}
-	return &http.Response{StatusCode: 200, Status: "200 OK", Header: h,
+	// the target declares the length of what it sends (of the compressed stream, if it compresses) or sends chunked
+	clen := int64(-1)
+	if (len(c.Body)+len(c.Chunks))%3 == 0 {
+		clen = int64(len(data))
+	}
+	return &http.Response{StatusCode: 200, Status: "200 OK", Header: h, ContentLength: clen,
 		Body: &chunkReader{data: data, chunks: c.Chunks, end: c.End}, Request: req}, nil
 }
 
@@ -273,6 +280,10 @@ func proxyRun(in interface{}) (string, interface{}, map[string]int) {
 		p.ServeHTTP(w, httptest.NewRequest("GET", "http://t42:80/metrics?_jobName=job1&_hash="+hash+"&_scheme=http", nil))
 	}()
 	ob.Code, ob.CType, ob.Body, ob.Calls = w.code, w.ctype, w.body.Bytes(), w.calls
+	ob.CLen = -1
+	if v := w.hdr.Get("Content-Length"); v != "" {
+		fmt.Sscanf(v, "%d", &ob.CLen)
+	}
 	ctSet := w.ctSet
 	if !w.sent {
 		ob.Code, ob.CType = 200, w.hdr.Get("Content-Type")
@@ -345,9 +356,10 @@ func proxyRun(in interface{}) (string, interface{}, map[string]int) {
 		}
 	}
 	term := fmt.Sprintf("{| pc_req := {| pq_job_known := %s; pq_hash_ok := %s; pq_assigned := %s; pq_stopped := %s; pq_resp := %s; pq_sched := %s |};\n"+
-		"   pc_exact := %s;\n   pc_obs := {| po_code := %d; po_ctype := %s; po_body := %s; po_calls := %s; po_aborted := %s; po_times_delta := %s; po_health := %s; po_err := %s; po_stats_updated := %s |} |}",
+		"   pc_exact := %s;\n   pc_obs := {| po_code := %d; po_ctype := %s; po_body := %s; po_calls := %s; po_aborted := %s; po_times_delta := %s; po_health := %s; po_err := %s; po_stats_updated := %s; po_clen := %s |} |}",
 		cBool(c.JobKnown), cBool(c.HashOK), cBool(c.Assigned), cBool(c.Stopped), resp, cList(sched),
-		cBool(exact), ob.Code, ctObs, cBytes(ob.Body), cList(calls), cBool(ob.Aborted), cN(ob.Times), health, cBool(ob.Err), cBool(ob.Updated))
+		cBool(exact), ob.Code, ctObs, cBytes(ob.Body), cList(calls), cBool(ob.Aborted), cN(ob.Times), health, cBool(ob.Err), cBool(ob.Updated),
+		map[bool]string{true: "None", false: "(Some " + cN(uint64(ob.CLen)) + ")"}[ob.CLen < 0])
 	st := map[string]int{"resp_" + c.Resp: 1, "end_" + c.End: 1, "bytes": len(c.Body)}
 	if c.Gzip {
 		st["gzip"] = 1
